@@ -30,6 +30,7 @@ RULE = (
     "layer holding the sector, else the nearest ancestor, else zeros). Missing-parent configurations must raise at open "
     "unless the caller opted out. Non-trivial = depth >= 2 and a request draws from >= 2 different layers, or a must-raise "
     "configuration."
+    " A second process variant runs with the package's debug logging switched on."
 )
 ASSUMPTIONS = [
     "path-based parents are real files in a scratch directory (/dev/shm), written sparsely",
